@@ -1,5 +1,6 @@
 SPECIFICATION TSpec
 CONSTANTS
+ Copies <- TrCopies  Pad <- TrPad  Concat <- TrConcat
  EarlyTailError = TRUE
  MaxReinit = 5
  CountCalls = TRUE
